@@ -45,7 +45,20 @@ func (g *G) WildExpr(depth int, o WildOpts) xast.Expr {
 		return g.WildPath(depth, o)
 	case 4:
 		// filter expression (primary)[pred]...
-		f := &xast.Filter{Primary: &xast.Group{X: g.WildExpr(depth-1, o)}}
+		var prim xast.Expr = &xast.Group{X: g.WildExpr(depth-1, o)}
+		switch g.intn(8, "wprim") {
+		case 0:
+			if o.Vars {
+				prim = &xast.Var{Name: "x"}
+			}
+		case 1:
+			prim = g.wildCall(depth-1, o)
+		case 2:
+			prim = &xast.Str{S: "a"}
+		case 3:
+			prim = &xast.Num{Lit: "1"}
+		}
+		f := &xast.Filter{Primary: prim}
 		n := 1 + g.intn(2, "wnfp")
 		for i := 0; i < n; i++ {
 			f.Preds = append(f.Preds, g.WildExpr(depth-1, o))
